@@ -2,15 +2,17 @@
 # (Re)generate _CoqProject from the files present and run a full .vo build (never -vos/-vok).
 # usage: coqbuild.sh [make-target...]   (default: all)
 set -e
-# serialise builds of the shared tree (re-exec under the lock once)
+# serialise builds of the shared tree (re-exec under the lock once); never wrap this script in flock
 if [ -z "$COQBUILD_LOCKED" ]; then mkdir -p /verif/build; export COQBUILD_LOCKED=1; exec flock /verif/build/coqbuild.lock "$0" "$@"; fi
 ulimit -v ${COQ_MEM_KB:-16000000} 2>/dev/null || true   # a runaway proof must not take the machine down
 cd /verif/coq
 mkdir -p Gen
-{ cat _CoqProject.head; find Base Gen Model Proofs Props -name '*.v' 2>/dev/null | sort; } > _CoqProject.new
-if ! cmp -s _CoqProject.new _CoqProject 2>/dev/null; then mv _CoqProject.new _CoqProject; coq_makefile -f _CoqProject -o Makefile >/dev/null; else rm _CoqProject.new; fi
-[ -f Makefile ] || coq_makefile -f _CoqProject -o Makefile >/dev/null
+regen() {
+  { cat _CoqProject.head; find Base Gen Model Proofs Props -name '*.v' 2>/dev/null | sort; } > _CoqProject.new.$$
+  if ! cmp -s _CoqProject.new.$$ _CoqProject 2>/dev/null || [ ! -f Makefile ]; then mv _CoqProject.new.$$ _CoqProject; coq_makefile -f _CoqProject -o Makefile >/dev/null; rm -f .Makefile.d; else rm -f _CoqProject.new.$$; fi
+}
+regen
 timeout ${COQ_TIMEOUT:-1800} make -j${COQ_JOBS:-16} "$@" && exit 0
-# one retry: a freshly generated directory/file can be missed by the first dependency scan
-rm -f .Makefile.d
+# one retry: a file that appeared/disappeared during the first dependency scan, or a freshly generated directory
+rm -f .Makefile.d; regen
 exec timeout ${COQ_TIMEOUT:-1800} make -j${COQ_JOBS:-16} "$@"
